@@ -1,12 +1,12 @@
-import Mutagen.Model.Lifecycle
-import Mutagen.Proofs.Lifecycle
+import Mutagen.Model.SyncCycle
+import Mutagen.Proofs.RootSafety
 /-!
 # C11 — root deletion, root type change and one-sided emptying halt the session
 
-Property theorems only (helper lemmas live in `Mutagen.Proofs.Lifecycle`).
+Property theorems only (helper lemmas live in `Mutagen.Proofs.RootSafety`).
 -/
 namespace Mutagen.Properties.C11
-open Mutagen.Model Mutagen.Proofs.Reconcile Mutagen.Proofs.Lifecycle
+open Mutagen.Model Mutagen.Proofs.ReconcileShape Mutagen.Proofs.RootSafety
 
 /-- `oneEndpointEmptiedRoot` is exactly the statement's situation: the
 ancestor root is a directory with at least two entries, both endpoint roots are
